@@ -1,7 +1,7 @@
 (* BoolText.v — the Boolean algebra of filters, from the path text: a filter step selects a SUBSEQUENCE of the members of the
    value it is applied to (elements in index order, member values in ascending key order: `members`), namely those whose
    verdict is true; so `||` selects the union, `&&` the intersection, `!` the complement — as sets AND in member order. *)
-From JP Require Import Peg Grammar Slice Text Tree Actions Json Eval WF Spec SortFacts EvalInv1 EvalInv4 EvalTop EndToEnd Codec KeyDefs KeyParse IdxParse SliceParse UnionParse WildParse RecParse ChainParse SpacePath FunParse AggParse FiltParse CmpParse CmpSpace NegFilt LitParse RootOp RegexOp QueryParse FiltSpace QuerySpace FiltChain ChainAddr FunAddr AggAddr FiltAddr CmpAddr QueryAddr FiltChainAddr.
+From JP Require Import Peg Grammar Slice Text Tree Actions Json Eval WF Spec SortFacts EvalInv1 EvalInv4 EvalTop EndToEnd Codec KeyDefs KeyParse IdxParse SliceParse UnionParse WildParse RecParse ChainParse SpacePath FunParse AggParse FiltParse CmpParse CmpSpace NegFilt LitParse RootOp RegexOp QueryParse FiltSpace QuerySpace QueryTree FiltChain ChainAddr FunAddr AggAddr FiltAddr CmpAddr QueryAddr FiltChainAddr.
 From Coq Require Import Lia.
 Open Scope list_scope.
 
@@ -59,13 +59,14 @@ Section BoolText.
     | FC i o lit | FCS i _ _ o _ _ lit => ctest i o (lit_num parse_float lit) v
     | FQ d => dnf_test root vals d v
     | FQS _ d => dnf_test root vals (unspace_dnf d) v
+    | FT t => qt_test parse_float regex_match root vals t v
     | FES neg _ _ i _ => if neg then negb (reaches i v) else reaches i v
     | _ => false
     end.
   Lemma filter_step_selects root x lv : is_filt x = true ->
     nav1f root x lv = filter (fun m => verdict root x (kids (snd lv)) (snd m)) (members lv).
   Proof.
-    destruct x as [y|i|i o lit|i|d|y|i g0 a o b g1 lit|neg g0 gn i g1|g0' d']; intros H; try discriminate H; cbn [FiltChainAddr.nav1f verdict];
+    destruct x as [y|i|i o lit|i|d|y|i g0 a o b g1 lit|neg g0 gn i g1|g0' d'|t']; intros H; try discriminate H; cbn [FiltChainAddr.nav1f verdict];
       try (rewrite navf_navp); try (destruct neg; try (rewrite navf_navp)); apply navp_filter.
   Qed.
 
@@ -112,6 +113,43 @@ Section BoolText.
     repeat split; intros; try reflexivity.
     cbn [QueryAddr.bq_test]. unfold ctest, entry_test. destruct (num_of_entry (reach1 i v)); reflexivity.
   Qed.
+  (* the same for arbitrary sub-queries, parenthesised or not (QueryTree.v): `||` selects the union of what its two sides
+     select, `&&` the intersection (in member order: filtering twice), parentheses change nothing *)
+  Theorem tree_or_is_union root l r lv m :
+    In m (nav1f root (FT (TO l r)) lv) <-> In m (nav1f root (FT l) lv) \/ In m (nav1f root (FT r) lv).
+  Proof. rewrite !(filter_step_selects root (FT _) lv eq_refl). cbn [verdict qt_test]. apply in_filter_or. Qed.
+  Theorem tree_and_is_intersection root l r lv m :
+    In m (nav1f root (FT (TA l r)) lv) <-> In m (nav1f root (FT l) lv) /\ In m (nav1f root (FT r) lv).
+  Proof. rewrite !(filter_step_selects root (FT _) lv eq_refl). cbn [verdict qt_test]. apply in_filter_and. Qed.
+  Theorem tree_and_in_member_order root l r lv :
+    nav1f root (FT (TA l r)) lv = filter (fun m => qt_test parse_float regex_match root (kids (snd lv)) r (snd m)) (nav1f root (FT l) lv).
+  Proof. rewrite !(filter_step_selects root (FT _) lv eq_refl). cbn [verdict qt_test]. apply filter_and_twice. Qed.
+  Theorem parentheses_only_group root t lv : nav1f root (FT (TP t)) lv = nav1f root (FT t) lv.
+  Proof. reflexivity. Qed.
+  (* `&&` distributes over a parenthesised `||`: (a||b)&&c selects what a&&c||b&&c selects *)
+  Theorem and_distributes_over_or root a b c lv :
+    nav1f root (FT (TA (TP (TO a b)) c)) lv = nav1f root (FT (TO (TA a c) (TA b c))) lv.
+  Proof.
+    rewrite !(filter_step_selects root (FT _) lv eq_refl). cbn [verdict qt_test]. apply filter_ext'. intros x. apply andb_orb_distrib_l.
+  Qed.
+  (* a query in disjunctive form is the tree without parentheses *)
+  Lemma conj_tree_test root vals v bs : forall t, qt_test parse_float regex_match root vals (fold_left (fun t x => TA t (TB x)) bs t) v =
+    qt_test parse_float regex_match root vals t v && forallb (fun b => bq_test root vals b v) bs.
+  Proof. induction bs as [|x r IH]; intros t; cbn [fold_left forallb]; [rewrite andb_true_r; reflexivity|]. rewrite IH. cbn [qt_test]. rewrite andb_assoc. reflexivity. Qed.
+  Lemma dnf_tree_test root vals v cs : forall t, qt_test parse_float regex_match root vals (fold_left (fun t c => TO t (conj_tree (fst c) (snd c))) cs t) v =
+    qt_test parse_float regex_match root vals t v || existsb (fun c : bq * list bq => forallb (fun b => bq_test root vals b v) (fst c :: snd c)) cs.
+  Proof.
+    induction cs as [|x r IH]; intros t; cbn [fold_left existsb]; [rewrite orb_false_r; reflexivity|]. rewrite IH. cbn [qt_test]. unfold conj_tree at 1. rewrite conj_tree_test.
+    cbn [qt_test forallb]. rewrite orb_assoc. reflexivity.
+  Qed.
+  Theorem dnf_is_the_flat_tree root b bs cs lv :
+    nav1f root (FQ ((b :: bs) :: map (fun c : bq * list bq => fst c :: snd c) cs)) lv = nav1f root (FT (dnf_tree b bs cs)) lv.
+  Proof.
+    rewrite (filter_step_selects root (FQ _) lv eq_refl), (filter_step_selects root (FT _) lv eq_refl). cbn [verdict]. apply filter_ext'. intros x.
+    unfold dnf_tree. rewrite dnf_tree_test. unfold conj_tree. rewrite conj_tree_test. cbn [qt_test]. unfold QueryAddr.dnf_test. cbn [existsb forallb].
+    f_equal. induction cs as [|c r IH]; [reflexivity|]. cbn [map existsb forallb]. rewrite IH. reflexivity.
+  Qed.
+
   (* spelled out for an object and for an array: ascending key order, index order *)
   Theorem filter_step_order root x p : is_filt x = true ->
     (forall m, nav1f root x (p, VObj m) =
@@ -122,7 +160,7 @@ Section BoolText.
     (forall xs, nav1f root x (p, VArr xs) =
        flat_map (fun iv : Z * value => if verdict root x xs (snd iv) then [(p ++ [PIdx (fst iv)], snd iv)] else []) (index_list xs 0)).
   Proof.
-    destruct x as [y|i|i o lit|i|d|y|i g0 a o b g1 lit|neg g0 gn i g1|g0' d']; intros H; try discriminate H; split; intros; try reflexivity; destruct neg; reflexivity.
+    destruct x as [y|i|i o lit|i|d|y|i g0 a o b g1 lit|neg g0 gn i g1|g0' d'|t']; intros H; try discriminate H; split; intros; try reflexivity; destruct neg; reflexivity.
   Qed.
   (* a selected member is a member, and the selection keeps the members' order *)
   Theorem selection_is_subsequence root x lv : is_filt x = true ->
